@@ -25,11 +25,12 @@ func vhC18Pool() {
 	nw := &vcNet{}
 	nw.onDial = func(k int, addr string) *vcConn {
 		vYield()
-		if vBool("dialFails") {
-			return nil
-		}
+		fails := vBool("dialFails")
 		if wait && vBool("dialSlow") {
 			time.Sleep(600 * time.Millisecond) // longer than a waiter is willing to wait
+		}
+		if fails {
+			return nil
 		}
 		live++
 		if live > maxLive {
